@@ -96,6 +96,23 @@ def build_wide(rng, name):
     b.emit("kdecinto r e", "ok"); b.kmerge("r2", "src"); j1 = b.emit("kobs r2"); b.emit("kobs r", ("same", j1))
     return b
 
+def build_pag_window(rng, facts, name):
+    """Decode into a NON-EMPTY paginated receiver whose buffer of unit entries sits anywhere around its compaction trigger and its capacity (sweep of fill
+    levels 60..200, values spread so thinly that compaction cannot move them to pages), from a paginated source that still has buffered unit entries (so that it
+    emits an index-deltas block), alone and followed by further blocks: decode-into = merge, and the blocks after the index deltas are read as such."""
+    spec = rng.choice(sorted(facts)); b = Builder(name)
+    b.knew("src", spec, "pag", "pag"); nsrc = rng.choice([1, 2, 5, 20, 40])
+    for v in rand_values(rng, nsrc, -30, 30, zeros=0.0): b.kadd("src", v)
+    if rng.random() < 0.5: b.kadd("src", 7.5, 2.0)
+    b.emit("kenc e src %d" % rng.choice([0, 1]), "ok")
+    nfill = rng.randint(60, 200)
+    b.knew("r1", spec, "pag", "pag"); b.knew("r2", spec, "pag", "pag")
+    for v in rand_values(rng, nfill, -30, 30, zeros=0.0, signs=(1,)): b.kadd("r1", v); b.kadd("r2", v)
+    if rng.random() < 0.3: b.emit("kobs r1"); b.emit("kobs r2")          # a read sorts (and may compact) the buffer first
+    b.emit("kdecinto r1 e", "ok"); b.kmerge("r2", "src"); j1 = b.emit("kobs r2"); b.emit("kobs r1", ("same", j1))
+    b.emit("kdecinto r1 e", "ok"); b.kmerge("r2", "src"); j1 = b.emit("kobs r2"); b.emit("kobs r1", ("same", j1))
+    return b
+
 def build_big_total(rng, facts, name):
     """An exact-statistics sketch whose total weight is an integer just above 2^52 (its varfloat takes all 9 bytes, the last one with its top bit set),
     read back by both decoders: integer weights below 2^53 are inside the property."""
@@ -117,7 +134,7 @@ def run(tier, seed):
     ok, log = core.build_vrun()
     specs = spec_list(rng, 12 if tier == "quick" else 50)
     facts = sketchcheck.learn_specs("C06", specs) if ok else {}
-    builders = ([build(rng, facts, "e%d" % i) for i in range(250 if tier == "quick" else 6000)] + [build_wide(rng, "w%d" % i) for i in range(6 if tier == "quick" else 60)] + [build_big_total(rng, facts, "b%d" % i) for i in range(8 if tier == "quick" else 80)]) if facts else []
+    builders = ([build(rng, facts, "e%d" % i) for i in range(250 if tier == "quick" else 6000)] + [build_wide(rng, "w%d" % i) for i in range(6 if tier == "quick" else 60)] + [build_pag_window(rng, facts, "pw%d" % i) for i in range(40 if tier == "quick" else 600)] + [build_big_total(rng, facts, "b%d" % i) for i in range(8 if tier == "quick" else 80)]) if facts else []
     return sketchcheck.run_sketch_property(
         "C06", tier, seed, builders,
         "sketches from short histories (unit/dyadic/large integer weights surviving the +1/-1 transform, both variants, source stores of every kind incl. collapsing) are encoded with the mapping "
